@@ -196,7 +196,10 @@ func c16Check(env *core.Env, cc core.Case) core.Verdict {
 	r := cli(env, root, stdin, args...)
 	v := core.Verdict{Status: core.Held, Nontrivial: true, Features: []string{"fault:" + c.Fault, "pos:" + c.Pos, "cmd:" + c.Cmd}, Counts: map[string]int{}}
 	what := fmt.Sprintf("fault %s at %s (%s unit %s), command %v", c.Fault, c.Pos, c.Which, ft.Key, args)
-	if r.Class() == sut.ClassFault || r.Class() == sut.ClassTimeout {
+	if r.Class() == sut.ClassTimeout {
+		return core.Incon("watchdog hit, not judged: %s", describe(r))
+	}
+	if r.Class() == sut.ClassFault {
 		return core.Viol("crash:"+c.Fault, "%s: crashed: %s", what, describe(r))
 	}
 	if r.Exit == 0 {
